@@ -32,4 +32,21 @@ def distributionFor (global : Option (List Int)) (calls : List (Matcher × List 
 def typeFor (global : Option (List Int)) (calls : List (Matcher × List Int)) (name : Str) : Str :=
   distType (cfgOf global calls) (sanitizeMetricName name)
 
+/-! ### the rolling window of a summary
+
+`PrometheusBuilder::{set_bucket_duration, set_bucket_count}` store `Some(value)`; `build_recorder` hands both options to
+`DistributionBuilder::new`; `get_distribution` resolves each one ON ITS OWN against its default
+(`self.bucket_duration.map_or(DEFAULT_SUMMARY_BUCKET_DURATION, |d| d)`, likewise the count). -/
+
+/-- `DEFAULT_SUMMARY_BUCKET_COUNT` -/
+def defaultBucketCount : Nat := 3
+
+/-- `DEFAULT_SUMMARY_BUCKET_DURATION` = `Duration::from_secs(20)`, in nanoseconds -/
+def defaultBucketDurationNs : Nat := 20 * 1000000000
+
+/-- `(b_count, b_duration)` of `get_distribution`: what `Distribution::new_summary` → `RollingSummary::new` receives -/
+def windowOf (count : Option Nat) (duration : Option Nat) : Nat × Nat :=
+  (match count with | some c => c | none => defaultBucketCount,
+   match duration with | some d => d | none => defaultBucketDurationNs)
+
 end MetricsVerif.DistBuilder
